@@ -1146,10 +1146,24 @@ impl System {
         let _ = answered;
         let classes: Vec<String> = outcomes.iter().map(|o| o.class()).collect();
         let f = self.absorb(outcomes, check);
+        if !check {
+            self.read_views();
+        }
         if self.record {
             self.transcript = self.step_record_hash(&classes);
         }
         f
+    }
+
+    /// The shell reads the view through every bridge after EVERY step (a bridge that caches
+    /// the view must not serve a stale one later). On checked steps `check_state` does the
+    /// reading and the comparison with the twin.
+    fn read_views(&mut self) {
+        for lane in self.lanes.iter_mut() {
+            if lane.kind.codec().is_some() && !lane.dead {
+                let _ = lane.view_bytes();
+            }
+        }
     }
 
     /// One undecodable answer on every bridge lane; the twin is told what that amounts to.
@@ -1214,6 +1228,8 @@ impl System {
         }
         if findings.is_empty() && check {
             findings.extend(self.check_state());
+        } else if findings.is_empty() {
+            self.read_views();
         }
         findings
     }
